@@ -264,8 +264,7 @@ func (p *c20) runSeq(x *res, adapter string, regs []int, reqs []c20Req, nativeOn
 			case "update":
 				native.AddUpdater(rg.table, rg.text, func(item map[string]*mtypes.Item, vals map[string]*mtypes.Item) {
 					ran[ri]++
-					s := fmt.Sprintf("cb%d", ri)
-					item["cb"] = &mtypes.Item{S: &s}
+					c20Mutate(item, ri)
 				})
 			default:
 				et := map[string]interpreter.ExpressionType{"key": interpreter.ExpressionTypeKey, "filter": interpreter.ExpressionTypeFilter, "conditional": interpreter.ExpressionTypeConditional}[rg.kind]
@@ -464,8 +463,7 @@ func (p *c20) runSeq(x *res, adapter string, regs []int, reqs []c20Req, nativeOn
 			case "update":
 				switch {
 				case fired >= 0:
-					want := item.Clone()
-					want["cb"] = val.Str(fmt.Sprintf("cb%d", fired))
+					want := c20Mutated(item, fired)
 					if got.Class != adapt.ClsOK || !val.ItemsEqual(after.Item, want) {
 						x.viol("mutation-not-used", "update", fmt.Sprintf("[%s] update %q: class %s, item %s; expected the registered updater's mutation %s", adapter, req.text, got.Class, after.Item.Canon(), want.Canon()), wit)
 					}
@@ -486,6 +484,53 @@ func (p *c20) runSeq(x *res, adapter string, regs []int, reqs []c20Req, nativeOn
 			}
 		}()
 	}
+}
+
+// c20Mutate is what the registered updater number ri does to the item it is handed: besides leaving its mark
+// (attribute cb) it adds, replaces, RENAMES or removes attributes - an updater is free to do any of it, and
+// what it leaves behind is the item the operation stores.
+func c20Mutate(item map[string]*mtypes.Item, ri int) {
+	s := fmt.Sprintf("cb%d", ri)
+	item["cb"] = &mtypes.Item{S: &s}
+	switch ri % 5 {
+	case 1: // rename a -> a_moved (one attribute gone, cb and a_moved new: the item grows)
+		if v, ok := item["a"]; ok {
+			item["a_moved"] = v
+			delete(item, "a")
+		}
+	case 2: // drop both non-key attributes (the item shrinks)
+		delete(item, "a")
+		delete(item, "b")
+	case 3: // swap one attribute for another of another type (same number of attributes as with the mark alone)
+		delete(item, "b")
+		t := true
+		item["b2"] = &mtypes.Item{BOOL: &t}
+	case 4: // replace a value
+		n := "42" // (same type: a may be the key of an index a disturbance created)
+		item["a"] = &mtypes.Item{S: &n}
+	}
+}
+
+// c20Mutated is the item c20Mutate leaves behind.
+func c20Mutated(item val.Item, ri int) val.Item {
+	want := item.Clone()
+	want["cb"] = val.Str(fmt.Sprintf("cb%d", ri))
+	switch ri % 5 {
+	case 1:
+		if v, ok := want["a"]; ok {
+			want["a_moved"] = v
+			delete(want, "a")
+		}
+	case 2:
+		delete(want, "a")
+		delete(want, "b")
+	case 3:
+		delete(want, "b")
+		want["b2"] = val.Bool(true)
+	case 4:
+		want["a"] = val.Str("42")
+	}
+	return want
 }
 
 func sortedChars(s string) string {
